@@ -1092,6 +1092,9 @@ func (tb *TB) sliceOb(x *ssa.Slice) *BoundOb {
 	okLow := x.Low == nil || s.implied("0", los, loo) || tb.nonNegative(s, x.Low)
 	okOrder := s.implied(los, his, hio-loo)
 	okHigh := x.High == nil || s.implied(his, limitS, limitC-hio)
+	if !okHigh && his == "0" && hio == 0 && limitC >= 0 {
+		okHigh = true // x[:0]: a length or capacity is never negative
+	}
 	if okLow && okOrder && okHigh {
 		ob.OK, ob.How = true, "0 <= low <= high <= len from guards/contracts"
 		return ob
